@@ -6,7 +6,7 @@ RULE = ('for each generated call (all joins, all filter_tables): three other n_j
         'added unrelated columns, a repeated call; same multiset of full value rows (same_rows_spec; for '
         'J/C/D joins gray pairs are set aside and reported separately), _id = 0..n-1; prefix/position/suffix '
         'filter_tables: every qualifying pair in every variant; apply_matcher / filter_candset identical for '
-        'every n_jobs; thorough re-runs cases in fresh processes under two PYTHONHASHSEEDs with loky workers')
+        'every n_jobs; split_table on the exhaustive grid rows <= 260 x splits <= 48 must partition the table and the GENERATED split_bounds must reproduce the chunk sizes; thorough re-runs cases in fresh processes under two PYTHONHASHSEEDs with loky workers')
 
 
 def run(ctx):
@@ -15,6 +15,7 @@ def run(ctx):
     parts = [
         Part('variants', 'corr_meta', 'run_njobs', [s, 60 if q else 1200]),
         Part('matcher_candset', 'corr_meta', 'run_njobs_matcher', [s, 60 if q else 1000]),
+        Part('split_grid', 'corr_split', 'run', [s, 150 if q else 1500]),
     ]
     if not q:
         parts.append(Part('processes', 'corr_proc', 'run', [s, 40]))
